@@ -158,6 +158,7 @@ pub fn run_future_group(steps: usize, keyed: bool, script: &[u8], force: [u16; G
     w().force[2] = force[2];
     // round of the most recent poll if it returned Pending (invariant W is asserted against it)
     let mut pending_round: Option<usize> = None;
+    w().group_fam = 11;
     let mut r: Ref<future_group::Key> = Ref::new();
     {
         // std: leaked at the end (see stubs::drop_slow_stub); otherwise dropped when the
@@ -171,7 +172,17 @@ pub fn run_future_group(steps: usize, keyed: bool, script: &[u8], force: [u16; G
             assume(op < 4);
             let target = if s < script.len() && script[s] != 255 { (script[s] >> 2) as usize } else { G };
             let g: &mut FutureGroup<Fut> = if keyed { &mut **keyedg } else { &mut *plain };
-            if op == 0 {
+            if s < script.len() && script[s] == EXT2 {
+                // `Extend::extend` with two futures: reserve + insert, keys are not returned
+                assert!(!keyed && r.inserted + 2 <= G);
+                let id = r.inserted;
+                g.extend([Fut::new(id), Fut::new(id + 1)]);
+                w().n = id + 2;
+                r.live[id] = true;
+                r.live[id + 1] = true;
+                r.inserted += 2;
+                forget_handles();
+            } else if op == 0 {
                 if r.inserted < G {
                     let id = r.inserted;
                     let k = g.insert(Fut::new(id));
@@ -328,6 +339,7 @@ pub fn run_stream_group(steps: usize, keyed: bool, cap: usize, script: &[u8], fo
     w().force[1] = force[1];
     w().force[2] = force[2];
     let mut pending_round: Option<usize> = None;
+    w().group_fam = 12;
     let mut r: Ref<stream_group::Key> = Ref::new();
     {
         let mut plain = core::mem::ManuallyDrop::new(StreamGroup::<Strm>::new());
@@ -485,6 +497,8 @@ pub const fn rsv(n: u8) -> u8 {
     2 | (n << 2)
 }
 pub const ANY: u8 = 255;
+/// FutureGroup only: `extend` with two futures
+pub const EXT2: u8 = 254;
 /// forced outcomes: none
 pub const FREE: [u16; G] = [0; G];
 /// outcome codes, first poll in the low bits
@@ -515,6 +529,40 @@ crate::proof!(fgroup_grow_live, 8, { run_future_group(5, false, &[INS, POLL, INS
 crate::proof!(sgroup_item_then_any, 8, { run_stream_group(3, false, 2, &[INS, POLL, POLL], [R, 0, 0]) });
 crate::proof!(sgroup_two_end_same_poll, 8, { run_stream_group(3, false, 1, &[INS, INS, POLL], FREE) });
 
+// "polling returns None exactly when the group is empty, after which it can be refilled and
+// used again" and insertion after a member was yielded inside a poll (slot reuse after a
+// completion rather than after a remove). The first member's outcomes are scripted so that the
+// slab's free list stays concrete; the later members are the solver's.
+crate::proof!(fgroup_refill_after_none, 8, { run_future_group(6, false, &[INS, POLL, POLL, INS, POLL, POLL], [R, 0, 0]) });
+crate::proof!(fgroup_keyed_refill_after_none, 8, { run_future_group(6, true, &[INS, POLL, POLL, INS, POLL, POLL], [R, 0, 0]) });
+crate::proof!(fgroup_insert_after_yield, 8, { run_future_group(6, false, &[INS, INS, POLL, INS, POLL, POLL], [R, 0, 0]) });
+crate::proof!(fgroup_empty_poll_then_use, 8, { run_future_group(4, false, &[POLL, INS, POLL, POLL], FREE) });
+crate::proof!(sgroup_refill_after_none, 8, { run_stream_group(5, false, 1, &[INS, POLL, INS, POLL, POLL], [N, 0, 0]) });
+crate::proof!(sgroup_refill_after_item_none, 8, { run_stream_group(6, false, 1, &[INS, POLL, POLL, INS, POLL, POLL], [seq2(R, N), 0, 0]) });
+crate::proof!(sgroup_insert_after_end, 8, { run_stream_group(5, false, 1, &[INS, INS, POLL, INS, POLL], [N, 0, 0]) });
+crate::proof!(sgroup_empty_poll_then_use, 8, { run_stream_group(4, false, 1, &[POLL, INS, POLL, POLL], FREE) });
+
+// several removals in one history: the slab is no longer dense after the first one (its free
+// list head lies below live members), the second removal hits a member above / below the hole.
+// `rem(3)`: the member to remove is the solver's choice (dispatched to concrete keys).
+crate::proof!(fgroup_remove_two, 8, { run_future_group(5, false, &[INS, INS, rem(0), rem(1), POLL], FREE) });
+crate::proof!(fgroup_remove_two_any, 8, { run_future_group(7, false, &[INS, INS, INS, rem(3), rem(3), POLL, POLL], FREE) });
+crate::proof!(fgroup_remove_after_yield, 8, { run_future_group(5, false, &[INS, INS, POLL, rem(1), POLL], [R, 0, 0]) });
+crate::proof!(fgroup_keyed_remove_two_any, 8, { run_future_group(7, true, &[INS, INS, INS, rem(3), rem(3), POLL, POLL], FREE) });
+crate::proof!(sgroup_remove_two, 8, { run_stream_group(5, false, 1, &[INS, INS, rem(0), rem(1), POLL], FREE) });
+crate::proof!(sgroup_remove_two_any, 8, { run_stream_group(7, false, 1, &[INS, INS, INS, rem(3), rem(3), POLL, POLL], FREE) });
+crate::proof!(sgroup_remove_after_end, 8, { run_stream_group(5, false, 1, &[INS, INS, POLL, rem(1), POLL], [N, 0, 0]) });
+
+// a member ends and a later member yields in the same poll (the scan stops at the item): the
+// ended member must be forgotten in that very poll; then its slot is reused
+crate::proof!(sgroup_end_and_item_same_poll, 8, { run_stream_group(4, false, 2, &[INS, INS, POLL, POLL], [N, R, 0]) });
+crate::proof!(sgroup_end_item_then_reuse, 8, { run_stream_group(6, false, 2, &[INS, INS, POLL, INS, POLL, POLL], [N, R, 0]) });
+crate::proof!(sgroup_keyed_end_item_then_reuse, 8, { run_stream_group(6, true, 2, &[INS, INS, POLL, INS, POLL, POLL], [N, R, 0]) });
+
+// `Extend::extend` (reserve(size hint) + insert per item), on an empty group and after an insert
+crate::proof!(fgroup_extend2, 8, { run_future_group(4, false, &[EXT2, POLL, POLL, POLL], FREE) });
+crate::proof!(fgroup_insert_extend2, 8, { run_future_group(5, false, &[INS, EXT2, POLL, POLL, POLL], FREE) });
+
 // std configuration: the real WakerVec / ReadinessVec / InlineWakerVec are in play
 crate::proof!(sgroup_keyed_micro2, 8, { run_stream_group(2, true, 1, &[INS, POLL], FREE) });
 crate::proof!(sgroup_rem_then_poll, 8, { run_stream_group(4, false, 1, &[INS, INS, rem(0), POLL], FREE) });
@@ -534,6 +582,18 @@ mod std_proofs {
     crate::proof!(fgroup_std_remove, 8, { run_future_group(5, false, &[INS, INS, POLL, rem(0), POLL], [P, 0, 0]) });
     crate::proof!(fgroup_std_grow_live, 8, { run_future_group(4, false, &[INS, POLL, INS, POLL], [P, 0, 0]) });
     crate::proof!(fgroup_std_rsv_live, 8, { run_future_group(4, false, &[INS, POLL, rsv(1), POLL], [P, 0, 0]) });
+    crate::proof!(fgroup_std_reuse_after_remove, 8, { run_future_group(5, false, &[INS, POLL, rem(0), INS, POLL], [P, 0, 0]) });
+    crate::proof!(sgroup_std_reuse_after_remove, 8, { run_stream_group(5, false, 1, &[INS, POLL, rem(0), INS, POLL], [P, 0, 0]) });
+    // members may wake themselves from inside their own poll (yield_now style): the wake-up
+    // lands while the group has released the readiness lock around the member's poll
+    crate::proof!(fgroup_std_selfwake3, 8, {
+        unsafe { STD_OPTS = 5 };
+        run_future_group(3, false, &[INS, POLL, POLL], FREE)
+    });
+    crate::proof!(sgroup_std_selfwake3, 8, {
+        unsafe { STD_OPTS = 5 };
+        run_stream_group(3, false, 1, &[INS, POLL, POLL], FREE)
+    });
     crate::proof!(sgroup_std_micro3, 8, { run_stream_group(3, false, 1, &[INS, POLL, POLL], FREE) });
     crate::proof!(sgroup_std_item_then_any, 8, { run_stream_group(3, false, 2, &[INS, POLL, POLL], [R, 0, 0]) });
     crate::proof!(sgroup_std_two, 8, { run_stream_group(4, false, 1, &[INS, INS, POLL, POLL], FREE) });
